@@ -12,7 +12,7 @@ import (
 func init() {
 	register(&propInfo{
 		ID:          "C19",
-		Explanation: "Path and value-origin analysis of the auth package. The permission checks only compare permissions for equality, so these path facts are the whole argument: (R19.1) in the per-field wrapper built by PermissionedProxy every delegation to the implementation is dominated by the true outcome of HasPerm(ctx from the call's first argument, PermissionedProxy's default-permissions parameter, the field's perm tag), and the false outcome returns an error value without delegating; (R19.2) HasPerm searches exactly the set attached to the context when one is attached (comma-ok true) and the defaults only otherwise, returns true only under element == required permission and false otherwise, and reads the same context key WithPerm writes; (R19.3) the HTTP handler reaches Next either with the original context on the token-less path or with WithPerm(ctx, allow) where allow is the verifier's own result on the verified path, and every 401 path (missing Bearer prefix, verifier error) never reaches Next; the token is taken from the Authorization header and otherwise from the token form value with the Bearer prefix added. R19.1 also requires every reflect.Value.Set in the proxy constructor to install a reflect.MakeFunc wrapper.",
+		Explanation: "Path and value-origin analysis of the auth package. The permission checks only compare permissions for equality, so these path facts are the whole argument: (R19.1) in the per-field wrapper built by PermissionedProxy every delegation to the implementation is dominated by the true outcome of HasPerm(ctx from the call's first argument, PermissionedProxy's default-permissions parameter, the field's perm tag), and the false outcome returns an error value without delegating; (R19.2) HasPerm searches exactly the set attached to the context when one is attached (comma-ok true) and the defaults only otherwise, returns true only under element == required permission and false otherwise, and reads the same context key WithPerm writes; (R19.3) the HTTP handler reaches Next either with the original context on the token-less path or with WithPerm(ctx, allow) where allow is the verifier's own result on the verified path, and every 401 path (missing Bearer prefix, verifier error) never reaches Next; the token is taken from the Authorization header and otherwise from the token form value with the Bearer prefix added. R19.1 also requires every reflect.Value.Set in the proxy constructor to install a reflect.MakeFunc wrapper. (R19.4) the permission sets given to the proxy constructor are only read.",
 		NotDecided:  "What a user-supplied Verify function returns; reflection details of field/method matching by name in PermissionedProxy (MethodByName) beyond the tag validation; HTTP semantics of FormValue.",
 		Assumptions: []string{"PermissionedProxy's second parameter is the default permission set and its first the valid set (exported signature)", "HasPerm, WithPerm, PermissionedProxy and Handler.ServeHTTP are resolved by their exported names (public API)"},
 		Run:         runC19,
@@ -143,12 +143,35 @@ func (c *Ctx) r191(proxy, hasPerm *ssa.Function) {
 				c.bad(rule, construct, c.ipos(guard), "the context given to HasPerm is not the one passed as the call's first argument")
 			}
 			// arg1: default permissions = PermissionedProxy parameter #1
-			if len(proxy.Params) < 2 || !c.isParamOrForwarded(args[1], proxy.Params[1]) {
+			heapAll := func(v ssa.Value, pred func(apath) bool) bool {
+				os := c.originsHeap(v)
+				if len(os) == 0 {
+					return false
+				}
+				for _, o := range os {
+					if !pred(o) {
+						return false
+					}
+				}
+				return true
+			}
+			defaultsOK := len(proxy.Params) >= 2 && (c.isParamOrForwarded(args[1], proxy.Params[1]) ||
+				// the wrapper is a method of a small struct that holds what the closure used to capture
+				heapAll(args[1], func(a apath) bool { return len(a.Fields) == 0 && a.Root == ssa.Value(proxy.Params[1]) }))
+			if !defaultsOK {
 				okAll = false
 				c.bad(rule, construct, c.ipos(guard), "the permission set given to HasPerm as defaults is not PermissionedProxy's default-permissions parameter")
 			}
 			// arg2: the field's perm tag
-			if !c.fromPermTag(args[2]) {
+			if !c.fromPermTag(args[2]) && !heapAll(args[2], func(a apath) bool {
+				if len(a.Fields) != 0 {
+					return false
+				}
+				if v, ok := a.Root.(ssa.Value); ok {
+					return c.fromPermTag(v)
+				}
+				return false
+			}) {
 				okAll = false
 				c.bad(rule, construct, c.ipos(guard), "the required permission given to HasPerm does not originate from the field's `perm` tag")
 			}
@@ -250,7 +273,14 @@ func (c *Ctx) fromWrapperArg0(v ssa.Value, w *ssa.Function) bool {
 			if !ok || k != 0 {
 				return false
 			}
-			return len(w.Params) > 0 && x.X == ssa.Value(w.Params[0])
+			// the wrapper's argument list: its (last) parameter of type []reflect.Value — a method used as
+			// the wrapper has its receiver first
+			for _, prm := range w.Params {
+				if sl, ok := prm.Type().Underlying().(*types.Slice); ok && isNamed(sl.Elem(), "reflect", "Value") && x.X == ssa.Value(prm) {
+					return true
+				}
+			}
+			return false
 		default:
 			return false
 		}
